@@ -229,3 +229,10 @@ def weighted(draw, *pairs):
             return draw(s)
         i -= w
     raise AssertionError
+
+
+def pick(options):
+    """Uniform choice (st.sampled_from is visibly skewed towards the first
+    elements in generated data); shrinks to the first option."""
+    options = list(options)
+    return st.integers(0, 10007).map(lambda i: options[i % len(options)])
